@@ -69,7 +69,11 @@ func limitsSuite() hlib.Suite {
 					if rt {
 						wantR = 11
 					}
-					plan, err := file.ParseConfigFile([]byte(doc), T0)
+					var plan *file.RunnableStages
+					var err error
+					if p, pv := hlib.Catch(func() { plan, err = file.ParseConfigFile([]byte(doc), T0) }); p {
+						err = fmt.Errorf("panic: %v", pv)
+					}
 					if err != nil {
 						r.Fail("C15/limits", "rejected", err.Error(), input+"\n"+doc)
 						continue
@@ -258,18 +262,25 @@ func direct(mode string, eff map[string]string) (*api.Rates, int, error) {
 
 // defaultsSuite: per mode, every field sourced from the stage, from default
 // only, or from both with different values; duration, mode and parameters too.
-func defaultsSuite(withGaussian bool) hlib.Suite {
+// gauss: "full" enumerates gaussian like the other modes; "own-fields" (the quick
+// tier) enumerates the source patterns of the six fields only gaussian has, with
+// the fields shared with the other modes stated by the stage.
+func defaultsSuite(gauss string) hlib.Suite {
+	withGaussian := gauss
 	return hlib.Suite{Name: fmt.Sprintf("defaults/every-field-source-pattern/gaussian=%v", withGaussian), Weight: 3, Run: func(r *hlib.Rec) {
 		defer func() { vrand.Script = nil }()
 		vrand.Script = func() float64 { return 0 } // cos(0)=1: the jittered value shows the jitter percentage
 		for _, mode := range modes {
-			if mode == "gaussian" && !withGaussian {
-				continue
-			}
 			fs := append([]fld{}, fields[mode]...)
 			fs = append(fs, fld{name: "duration", a: "1s", b: "3s"}, fld{name: "parameters", a: "{K: stage}", b: "{K: default}", z: `{K: ""}`}, fld{name: "mode", a: mode, b: mode})
 			total := 1
 			radix := func(f fld) int {
+				if mode == "gaussian" && gauss != "full" {
+					switch f.name {
+					case "distribution", "jitter", "duration", "parameters", "mode":
+						return 1
+					}
+				}
 				if f.z != "" {
 					return 4
 				}
@@ -322,9 +333,10 @@ func defaultsSuite(withGaussian bool) hlib.Suite {
 				input := fmt.Sprintf("mode=%s sources=%v", mode, src)
 				r.SampleCase(input)
 				r.Eval()
-				plan, err := file.ParseConfigFile([]byte(doc), T0)
-				if err != nil || len(plan.VerifStages()) != 1 {
-					r.Fail("C15/defaults-rejected", mode, fmt.Sprintf("err=%v", err), input+"\n"+doc)
+				var plan *file.RunnableStages
+				var err error
+				if p, pv := hlib.Catch(func() { plan, err = file.ParseConfigFile([]byte(doc), T0) }); p || err != nil || len(plan.VerifStages()) != 1 {
+					r.Fail("C15/defaults-rejected", mode, fmt.Sprintf("panic=%v err=%v", pv, err), input+"\n"+doc)
 					continue
 				}
 				got := plan.VerifStages()[0]
@@ -368,9 +380,9 @@ func fieldOf(mode, what string) string { return mode + "-" + what }
 
 func suites(tier string) []hlib.Suite {
 	if tier == "quick" {
-		return []hlib.Suite{planSuite(2), defaultsSuite(false), limitsSuite()}
+		return []hlib.Suite{planSuite(2), defaultsSuite("own-fields"), limitsSuite()}
 	}
-	return []hlib.Suite{planSuite(3), defaultsSuite(true), limitsSuite()}
+	return []hlib.Suite{planSuite(3), defaultsSuite("full"), limitsSuite()}
 }
 
 func main() { hlib.EnumMain("C15", suites) }
